@@ -376,6 +376,8 @@ def collection_roundtrip(v, tname, dcls, acls, prop="C01", label_fields=()):
         loaded = ex.call_repo_function(fm2, fn_load, [top, doc], {}, q, qual=fq2 + ".to_soundevent", cls=fq2)
         for q2, y in loaded:
             n_paths += 1
+            if n_paths == 1:
+                obls.append(Obligation(f"{base}/cover#1", "cover", list(ex.bg) + q2.cond, expect="sat", inputs={"x": x}))
             for f in fields:
                 if f not in x.fields or (label_fields and f not in label_fields):
                     continue
